@@ -269,8 +269,11 @@ Definition crypto_ok (c : ccase) : bool :=
     beqb (amino_enc pub key) obs && obeqb (amino_dec pub obs) (amino_unmarshal pub key)
   | CAminoDec pub bz obs => obeqb (amino_unmarshal pub bz) obs
   | CEip doc obs =>
-    if keys_ok doc then
-      obeqb (render keccak256 doc) obs &&
+    if negb (dup_free doc) then
+      (* a repeated member at any depth: refused (ethereum/eip712/duplicate_keys.go) *)
+      match obs with None => true | Some _ => false end
+    else if keys_ok doc then
+      obeqb (render_checked keccak256 doc) obs &&
       match obs with
       | Some _ =>       (* a rendered document: its derived type map meets the hypotheses of the injectivity theorem *)
         match doc_parts doc with
